@@ -284,6 +284,9 @@ func c20GenCase(c *Ctx, stream string, i int) *c20Case {
 		}
 		tc.Tags = append(tc.Tags, "no-annotations")
 	}
+	if stream == "annotated" {
+		c20Annotate(r, j, tc, val)
+	}
 	if stream == "noflow" {
 		// all transactions on the first day, afterwards only price changes
 		var out []JDir
@@ -321,7 +324,7 @@ func c20GenCase(c *Ctx, stream string, i int) *c20Case {
 	if hi-lo > 150 && f.Interval == 1 {
 		f.Interval = 3
 	}
-	if stream == "mixed" && f.Interval == 0 {
+	if (stream == "mixed" || stream == "annotated") && f.Interval == 0 {
 		f.Interval = 3 // several periods
 	}
 	if r.Chance(1, 5) {
@@ -391,6 +394,10 @@ func c20GenCase(c *Ctx, stream string, i int) *c20Case {
 			}
 			f.Map = append(f.Map, m)
 		}
+	}
+	if stream == "annotated" && r.Chance(3, 4) {
+		// mostly the plain commands: the ratio monitor needs the balance of the same accounts and commodities
+		f.Acc, f.Com, f.Map = nil, nil, nil
 	}
 	tc.F = f
 	if stream == "universe" {
@@ -481,6 +488,140 @@ func c20CloseOut(r *RNG, j *Journal, tc *c20Case) {
 		j.Dirs = append(j.Dirs, JDir{Kind: 'o', Date: day + r.Range(1, 60), Account: "Expenses:After" + itoa(r.Intn(100))})
 	}
 	tc.Tags = append(tc.Tags, "close-out")
+}
+
+// c20Annotate (stream `annotated`): transactions that cross the portfolio's boundary (income / expense <-> asset / liability) and
+// carry a drawn @performance annotation: exactly the valuation commodity (once, twice, three times), the valuation commodity
+// together with another one (quoted in it, or quoted nowhere), another commodity alone, the posting's own commodity, the empty
+// list; booked in the valuation commodity or in another one, in either direction, with positive or negative quantities, on days
+// with and without other directives. In two cases of three the journal is `quiet` from a drawn day on: every boundary-crossing
+// transaction from that day on (the generator's own too) carries a NON-EMPTY annotation, so that the periods after it are periods
+// without flows (a transaction marked as a performance effect on named commodities is no deposit and no withdrawal) and have to
+// report end value / start value - 1 (`ratio_without_flows`); otherwise the annotated transactions stand among genuine external
+// flows and `@performance()` portfolio flows, and the returns are compared with the model.
+func c20Annotate(r *RNG, j *Journal, tc *c20Case, val string) {
+	lo, hi := c20Span(j)
+	_, coms := journalNames(j)
+	opened, closed := map[string]int{}, map[string]bool{}
+	for _, d := range j.Dirs {
+		switch d.Kind {
+		case 'o':
+			if _, has := opened[d.Account]; !has {
+				opened[d.Account] = d.Date
+			}
+		case 'c':
+			closed[d.Account] = true
+		}
+	}
+	for _, a := range []string{"Income:Yield", "Expenses:Charges", "Assets:Yielding"} {
+		if _, has := opened[a]; !has {
+			opened[a] = lo
+			j.Dirs = append(j.Dirs, JDir{Kind: 'o', Date: lo, Account: a})
+		}
+	}
+	var names []string
+	for a := range opened {
+		if !closed[a] {
+			names = append(names, a)
+		}
+	}
+	sort.Strings(names)
+	var others []string // commodities other than the valuation commodity (the generator quotes them in it, directly or through a chain)
+	for _, com := range coms {
+		if com != val {
+			others = append(others, com)
+		}
+	}
+	draw := func(own string, nonEmpty bool) *[]string {
+		x, y := "UNQ", "UNQ" // quoted nowhere
+		if len(others) > 0 {
+			x = Pick(r, others)
+		}
+		var tg []string
+		switch r.Intn(14) {
+		case 0, 1, 2:
+			tg = []string{val}
+		case 3:
+			tg = []string{val, val}
+		case 4:
+			tg = []string{val, val, val}
+		case 5:
+			tg = []string{val, x}
+		case 6:
+			tg = []string{x, val}
+		case 7:
+			tg = []string{x}
+		case 8:
+			tg = []string{y}
+		case 9:
+			tg = []string{val, y}
+		case 10:
+			tg = []string{own}
+		case 11:
+			tg = []string{own, own}
+		default:
+			tg = []string{}
+			if nonEmpty {
+				tg = []string{own, val}
+			}
+		}
+		return &tg
+	}
+	quiet := r.Chance(2, 3)
+	from := lo + r.Intn(hi-lo+1)
+	if quiet {
+		for k := range j.Dirs {
+			d := &j.Dirs[k]
+			if d.Kind != 't' || d.Date < from || len(d.Bookings) == 0 {
+				continue
+			}
+			crossing := false
+			for _, bk := range d.Bookings {
+				crossing = crossing || c16IsAL(bk.Credit) != c16IsAL(bk.Debit)
+			}
+			if crossing && (d.Targets == nil || len(*d.Targets) == 0) {
+				d.Targets = draw(d.Bookings[0].Com, true)
+			}
+		}
+		tc.Tags = append(tc.Tags, "annotated-quiet-tail")
+	}
+	for k := r.Range(1, 6); k > 0; k-- {
+		day := from + r.Intn(hi-from+40)
+		var al, ie []string
+		for _, a := range names {
+			if opened[a] <= day {
+				if c16IsAL(a) {
+					al = append(al, a)
+				} else {
+					ie = append(ie, a)
+				}
+			}
+		}
+		if len(al) == 0 || len(ie) == 0 {
+			continue
+		}
+		t := JDir{Kind: 't', Date: day, Desc: Pick(r, []string{"interest", "dividend", "fee", "custody charge", "tax refund"})}
+		for nb := Pick(r, []int{1, 1, 1, 2}); nb > 0; nb-- {
+			com := val
+			if r.Chance(1, 2) && len(coms) > 0 {
+				com = Pick(r, coms)
+			}
+			q := Pick(r, []string{"110", "12.5", "0.75", "-40", "1500", "3.333", "250.00"})
+			if r.Chance(1, 3) {
+				q = fmt.Sprintf("%d.%02d", r.Intn(900), r.Intn(100))
+			}
+			bk := JBook{Credit: Pick(r, ie), Debit: Pick(r, al), Qty: q, Com: com}
+			if r.Chance(1, 3) {
+				bk.Credit, bk.Debit = bk.Debit, bk.Credit
+			}
+			t.Bookings = append(t.Bookings, bk)
+		}
+		if quiet || r.Chance(5, 6) {
+			t.Targets = draw(t.Bookings[0].Com, quiet)
+		}
+		j.Dirs = append(j.Dirs, t)
+	}
+	tc.Tags = append(tc.Tags, "annotated-boundary-crossing")
 }
 
 // c20DecString: exact decimal literal of a rational with a power-of-ten denominator
@@ -1270,16 +1411,22 @@ func c20Check(c *Ctx, bt *Batch, tc *c20Case, agreed *bool) {
 			if retOutcome == "ok" && perr == nil && partOK && len(lines) == len(ends) {
 				// days with a transaction that crosses the portfolio's boundary (C20_ratio_period_without_flows: transactions
 				// that stay inside the portfolio, or outside it, are no flows); with --account every transaction that touches
-				// an asset/liability account counts
+				// an asset/liability account counts. A boundary-crossing transaction that carries a NON-EMPTY @performance annotation
+				// is a performance effect on the named commodities, not a flow (only `@performance()` and un-annotated ones are):
+				// whatever the targets are - the valuation commodity alone, several, the posting's own or another commodity
 				txDays := map[int]bool{}
+				markedDays := map[int]bool{}
 				for _, d := range tc.J.Dirs {
 					if d.Kind != 't' {
 						continue
 					}
+					marked := d.Targets != nil && len(*d.Targets) > 0
 					for _, bk := range d.Bookings {
 						cr, dr := c16IsAL(bk.Credit), c16IsAL(bk.Debit)
-						if cr != dr || (len(tc.F.Acc) > 0 && (cr || dr)) {
+						if (cr != dr && !marked) || (len(tc.F.Acc) > 0 && (cr || dr)) {
 							txDays[d.Date] = true
+						} else if cr != dr {
+							markedDays[d.Date] = true
 						}
 					}
 				}
@@ -1302,6 +1449,12 @@ func c20Check(c *Ctx, bt *Batch, tc *c20Case, agreed *bool) {
 					}
 					want := 100 * (total[bkE]/total[bkS] - 1)
 					c.Tag("ratio-period-checked")
+					for d := range markedDays {
+						if d >= s && d <= e {
+							c.Tag("ratio-period-with-performance-effects")
+							break
+						}
+					}
 					if math.Abs(want-lines[k].Val) > 0.1+1e-6*math.Abs(want) {
 						msg := fmt.Sprintf("period %s..%s without flows: printed %s%%, end/start-1 = %g/%g-1 = %.3f%%", fmtDate(s), fmtDate(e), lines[k].Text, total[bkE], total[bkS], want)
 						if k == 0 && tc.F.Last > 0 && s > spanStart {
@@ -1573,6 +1726,7 @@ func runC20(c *Ctx) {
 		d += runStream("universe", a, min(a+400, nu))
 	}
 	d += runStream("split", 0, c.N(300, 6000))
+	d += runStream("annotated", 0, c.N(500, 10000))
 	runC20UniverseReader(c, c.N(500, 3000))
 	runDecStream(c, c.N(2000, 20000))
 	if d > 0 && !c.Replay {
